@@ -29,6 +29,7 @@ partition(case, sqmol)      -> dict with the orbital index lists the CI oracle w
                                electrons per spin), n_sos (expected register size 2*max(len(act_a), len(act_b))).
 ci_energy(case, sqmol, mo=None, part=None) -> (energy, sector dimension) from vlib.refchem.ci_oracle.
 determinant_energy(case, sqmol)            -> mean-field determinant energy from vlib.refchem.determinant_energy.
+frozen_for(case, ...)                      -> strategy: another valid frozen spec for the same molecule (freeze_mos histories).
 rotations(...) / rotate_active(...)        -> plain-data active-space rotations (Givens sequences) and their application.
 qubit-side helpers: qubit_hamiltonian, sector_indices, columns, sector_spectrum, basis_expectation.
 """
@@ -197,6 +198,18 @@ def molecules(draw, max_qubits=10, max_kept=6, refs=("rhf", "rohf", "uhf"), fami
     pts = draw(_geometry(fam, exact_symmetry=exact_symmetry))
     return {"family": fam, "atoms": [[e, p] for e, p in zip(elements, pts)], "q": q, "spin": spin, "basis": basis,
             "uhf": uhf, "frozen": frozen}
+
+
+@st.composite
+def frozen_for(draw, case, max_qubits=10, max_kept=6):
+    """Another frozen-orbital specification that Tangelo's contract accepts for the molecule of `case` (same format as
+    case["frozen"]; for freeze_mos histories)."""
+    elements = [a for a, _ in case["atoms"]]
+    n_mos = n_mos_of(elements, case["basis"])
+    _, n_alpha, n_beta = electron_counts(elements, case["q"], case["spin"])
+    fr = draw(_frozen_spec(n_mos, n_alpha, n_beta, bool(case["uhf"]), max_qubits // 2, max_kept))
+    assume(contract_ok(n_mos, n_alpha, n_beta, bool(case["uhf"]), fr))
+    return fr
 
 
 # ------------------------------------------------------------------------------------------------ builders
